@@ -9,8 +9,10 @@ type mapSliceValue struct {
 	valueEmbed
 }
 
-// func (v mapSliceValue) Equal(o Value) bool     { return v.slice == o.Interface() }
-func (v mapSliceValue) Interface() any { return v.slice }
+// Equal compares an ordered map like any other value: a yaml.MapSlice is a slice of its
+// items, so it equals a slice with equal items (and itself).
+func (v mapSliceValue) Equal(o Value) bool { return Equal(v.slice, o.Interface()) }
+func (v mapSliceValue) Interface() any     { return v.slice }
 
 func (v mapSliceValue) Contains(elem Value) bool {
 	e := elem.Interface()
